@@ -30,7 +30,8 @@ RULE = (
     "dimension lists from {2,3,4}^{<=4} (total dimension capped per stream), subsystem sets of every size in random "
     "order incl. non-contiguous; random pure states and mixed states of rank 1..D with spectrum ratio <= 4; "
     "Gaussian-integer matrices for the exact partial-transpose correspondence; thresholds None / 2**13 / small for the "
-    "route correspondence. Non-trivial: at least two subsystems and a proper non-empty subsystem set (a state that is "
+    "route correspondence; pure states with known Schmidt spectrum (product, Bell pair, 3:1) where the requested side is "
+    ">= approx_thresh and the complement is tiny; sparse kets / operators with unequal dims relabelled by 3- and 4-cycles. Non-trivial: at least two subsystems and a proper non-empty subsystem set (a state that is "
     "not a product for entanglement measures)."
 )
 
@@ -1439,39 +1440,282 @@ def corpus_stage(ctx):
                 expect(ctx, "logneg:sparse", close(r, 0.0), "logneg of the trivial bipartition != 0", desc)
 
 
+def rand_isometry(g, d, k):
+    q, _ = np.linalg.qr(g.normal(size=(d, k)) + 1j * g.normal(size=(d, k)))
+    return q[:, :k]
+
+
+def schmidt_state(g, dims, A, coeffs):
+    """sum_k c_k |a_k>|b_k> across the cut A | complement with random orthonormal
+    local bases: the spectrum of either reduced state is exactly c_k^2 (no
+    eigensolver needed).  coeffs = [1] is a product state across the cut,
+    [s, s] with s = 1/sqrt 2 a 'Bell pair' across the cut."""
+    n = len(dims)
+    sA = sorted(set(A))
+    Bc = [i for i in range(n) if i not in sA]
+    da = int(np.prod([dims[i] for i in sA]))
+    db = int(np.prod([dims[i] for i in Bc])) if Bc else 1
+    k = len(coeffs)
+    UA, UB = rand_isometry(g, da, k), rand_isometry(g, db, k)
+    M = (UA * np.asarray(coeffs, dtype=float)) @ UB.T
+    T = M.reshape([dims[i] for i in sA] + [dims[i] for i in Bc])
+    order = sA + Bc
+    T = T.transpose([order.index(i) for i in range(n)])
+    return T.reshape(-1, 1)
+
+
+def _side_sizes(dims, S):
+    a = int(np.prod([dims[i] for i in set(S)]))
+    return a, int(np.prod(dims)) // a
+
+
+def _known_states(g, dims, A):
+    """(name, ket, spectrum of the reduced state) with the spectrum known exactly or from an SVD"""
+    sa, sb = _side_sizes(dims, A)
+    out = [("product", schmidt_state(g, dims, A, [1.0]), np.array([1.0]))]
+    if min(sa, sb) >= 2:
+        out.append(("bell_pair", schmidt_state(g, dims, A, [2**-0.5, 2**-0.5]), np.array([0.5, 0.5])))
+        out.append(("schmidt_3_1", schmidt_state(g, dims, A, [0.75**0.5, 0.25**0.5]), np.array([0.75, 0.25])))
+    psi = rand_ket(g, int(np.prod(dims)))
+    n = len(dims)
+    sA = sorted(set(A))
+    Bc = [i for i in range(n) if i not in sA]
+    Mx = psi.reshape(dims).transpose(sA + Bc).reshape(sa, sb)
+    out.append(("random", psi, np.linalg.svd(Mx, compute_uv=False) ** 2))
+    return out
+
+
+def _spec_entropy(lam):
+    lam = lam[lam > 1e-300]
+    return float(-(lam * np.log2(lam)).sum())
+
+
+def threshold_oracle(ctx, dims, A, thresh, extra, fns=("entropy_subsys", "tr_sqrt_subsys", "logneg_subsys", "mutinf_subsys", "mutinf")):
+    """a pure state across A | complement: whenever the SMALLER side is below approx_thresh the
+    exact value is required, however large the requested side is"""
+    import quimb as qu
+
+    g = np.random.default_rng(ctx.seed + 2011 + int(np.prod(dims)) + len(A))
+    n = len(dims)
+    Bc = [i for i in range(n) if i not in A]
+    sa, sb = _side_sizes(dims, A)
+    tval = 2**13 if thresh == "default" else thresh
+    if tval is not None and min(sa, sb) >= tval:
+        return
+    cls = "requested_side_large" if (tval is not None and sa >= tval) else "both_sides_small"
+    kw = {} if thresh == "default" else {"approx_thresh": thresh}
+    for name, psi, lam in _known_states(g, dims, A):
+        desc = {"dims": dims, "sysa": A, "approx_thresh": thresh, "state": name, "size_a": sa, "size_b": sb, **extra}
+        if psi.shape[0] <= 64:
+            desc["psi"] = tolist(psi)
+        s_ref = _spec_entropy(lam) if Bc else 0.0
+        t_ref = float(np.sqrt(lam).sum()) if Bc else 1.0
+        if "entropy_subsys" in fns:
+            ok, v = call(ctx, "entropy_subsys:threshold", lambda: qu.entropy_subsys(psi, dims, A, **kw), desc)
+            if ok:
+                expect(ctx, f"entropy_subsys:{cls}:smaller_side_below_threshold", close(v, s_ref),
+                       f"entropy_subsys = {v} but the exact entropy is {s_ref} ({name} state, sides {sa} x {sb}, approx_thresh={thresh})", desc)
+        if "tr_sqrt_subsys" in fns:
+            ok, v = call(ctx, "tr_sqrt_subsys:threshold", lambda: qu.calc.tr_sqrt_subsys(psi, dims, A, **kw), desc)
+            if ok:
+                expect(ctx, f"tr_sqrt_subsys:{cls}:smaller_side_below_threshold", close(v, t_ref, 1e-7),
+                       f"tr_sqrt_subsys = {v} but the exact value is {t_ref} ({name} state, sides {sa} x {sb}, approx_thresh={thresh})", desc)
+        if Bc and "logneg_subsys" in fns:
+            ok, v = call(ctx, "logneg_subsys:threshold", lambda: qu.logneg_subsys(psi, dims, A, Bc, **kw), desc)
+            if ok:
+                expect(ctx, f"logneg_subsys:{cls}:smaller_side_below_threshold", close(v, max(0.0, 2 * math.log2(t_ref)), 1e-7),
+                       f"logneg_subsys (pure bipartition) = {v} but the exact value is {2 * math.log2(t_ref)} ({name} state, approx_thresh={thresh})", desc)
+        if Bc and "mutinf_subsys" in fns:
+            ok, v = call(ctx, "mutinf_subsys:threshold", lambda: qu.mutinf_subsys(psi, dims, A, Bc, **kw), desc)
+            if ok:
+                expect(ctx, f"mutinf_subsys:{cls}:smaller_side_below_threshold", close(v, 2 * s_ref),
+                       f"mutinf_subsys (pure bipartition) = {v} but the exact value is {2 * s_ref} ({name} state, approx_thresh={thresh})", desc)
+        if thresh == "default" and "mutinf" in fns:
+            ok, v = call(ctx, "mutinf:ket:threshold", lambda: qu.mutinf(psi, dims, A), desc)
+            if ok:
+                expect(ctx, f"mutinf:ket:{cls}:smaller_side_below_threshold", close(v, 2 * s_ref),
+                       f"mutinf(ket) = {v} but the exact value is {2 * s_ref} ({name} state)", desc)
+
+
+def threshold_stream(ctx):
+    """'requested side large, complement tiny, threshold small' (and neighbours)"""
+    rng = ctx.rng
+    fixed = [([16, 2], [0], 8), ([2, 16], [1], 8), ([4, 4, 2], [0, 1], 8), ([2, 8, 3], [1, 2], 16), ([4, 2, 4], [2, 0], 5),
+             ([3, 4, 2, 4], [3, 1, 0], 6), ([2, 16], [0], 8), ([4, 4], [0], 4), ([3, 3, 4], [0, 1], 9)]
+    for dims, A, t in fixed:
+        ctx.count(("threshold", tuple(dims), tuple(A), t), True)
+        ctx.bump("threshold_small")
+        threshold_oracle(ctx, dims, A, t, {})
+    for it in range(ctx.n(25, 300)):
+        dims = gen_dims(rng, 96, 2, 4)
+        n = len(dims)
+        A = gen_subset(rng, n, 1, n - 1)
+        sa, sb = _side_sizes(dims, A)
+        lo, hi = min(sa, sb), max(sa, sb)
+        t = rng.choice([lo + 1, hi, rng.randint(lo + 1, max(lo + 1, hi)), hi + 1])
+        ctx.count(("threshold", tuple(dims), tuple(A), t), sa > sb)
+        ctx.bump("threshold_random")
+        threshold_oracle(ctx, dims, A, t, {"case_seed": [ctx.seed, it]})
+    # the default threshold 2**13: a big requested side with a qubit / qutrit complement
+    for dims, A in ctx.n([([2**13, 2], [0])], [([2**13, 2], [0]), ([3, 2**13], [1]), ([2**7, 2, 2**6], [0, 2])]):
+        ctx.count(("threshold_default", tuple(dims), tuple(A)), True)
+        ctx.bump("threshold_default")
+        threshold_oracle(ctx, dims, A, "default", {})
+
+
+def _dense(x):
+    return x.toarray() if hasattr(x, "toarray") else np.asarray(x)
+
+
+def _non_involutive_perm(rng, n):
+    while True:
+        perm = list(range(n))
+        rng.shuffle(perm)
+        if [perm[perm[i]] for i in range(n)] != list(range(n)):
+            return perm
+
+
+def relabel_sparse_stream(ctx):
+    """subsystem relabelling of SPARSE states with unequal dimensions and permutations that are
+    not their own inverse (3-cycles, 4-cycles), through quimb's own permute, and every measure
+    that accepts a sparse ket / operator"""
+    import quimb as qu
+    import scipy.sparse as sp
+
+    rng = ctx.rng
+    g = np.random.default_rng(ctx.seed + 2012)
+    for it in range(ctx.n(45, 500)):
+        while True:
+            dims = gen_dims(rng, 96, 3, 4)
+            if len(set(dims)) >= 2:
+                break
+        n = len(dims)
+        D = int(np.prod(dims))
+        perm = _non_involutive_perm(rng, n) if rng.random() < 0.85 else rng.sample(range(n), n)
+        nd = [dims[p] for p in perm]
+        fmt = rng.choice(["csr", "csr", "csc", "coo"])
+        psi = rand_ket(g, D)
+        # a genuinely sparse ket as well: half of the amplitudes removed
+        if rng.random() < 0.5:
+            psi[g.random(D) < 0.5] = 0.0
+            if np.linalg.norm(psi) < 1e-6:
+                psi[0] = 1.0
+            psi = psi / np.linalg.norm(psi)
+        rho = rand_rho(g, D, rng.choice([1, 2, D]))
+        r2 = rand_rho(g, D)
+        A = gen_subset(rng, n, 1, n - 1)
+        nA = [perm.index(i) for i in A]
+        desc = {"dims": dims, "perm": perm, "sysa": A, "format": fmt, "case_seed": [ctx.seed, it]}
+        if D <= 36:
+            desc["psi"] = tolist(psi)
+        ctx.count(("relabel_sparse", tuple(dims), tuple(perm), tuple(A)), [perm[perm[i]] for i in range(n)] != list(range(n)))
+        ctx.bump("relabel_sparse")
+        if it < 1:
+            ctx.sample({"stream": "relabel_sparse", **{k: v for k, v in desc.items() if k != "psi"}})
+        ok, pk = call(ctx, "permute:sparse_ket", lambda: qu.permute(sp.csr_matrix(psi).asformat(fmt), dims, perm), desc)
+        ok2, po = call(ctx, "permute:sparse_operator", lambda: qu.permute(sp.csr_matrix(rho).asformat(fmt), dims, perm), desc)
+        okd, pd = call(ctx, "permute:dense", lambda: (np.asarray(qu.permute(psi, dims, perm)), np.asarray(qu.permute(rho, dims, perm))), desc)
+        wk, wo = ref_permute(psi, dims, perm), ref_permute(rho, dims, perm)
+        if okd:
+            expect(ctx, "permute:dense:value", mclose(pd[0], wk, 1e-12) and mclose(pd[1], wo, 1e-12), "permute(dense) != reshape-transpose", desc)
+        if ok:
+            pkd = pk.toarray() if sp.issparse(pk) else np.asarray(pk)
+            expect(ctx, "permute:sparse_ket:value", mclose(pkd, wk, 1e-12),
+                   f"permute(sparse ket) != permute(dense ket) = reshape-transpose (shape {pkd.shape} vs {wk.shape})", desc)
+        if ok2:
+            pod = po.toarray() if sp.issparse(po) else np.asarray(po)
+            expect(ctx, "permute:sparse_operator:value", mclose(pod, wo, 1e-12),
+                   f"permute(sparse operator) != permute(dense operator) (shape {pod.shape} vs {wo.shape})", desc)
+        if not ok:
+            continue
+        pk = sp.csr_matrix(pk)
+        # measures on the relabelled sparse ket = measures on the original ket
+        P = dop(psi)
+        Bc = [i for i in range(n) if i not in A]
+        lam = np.clip(np.linalg.eigvalsh(ref_ptr(P, dims, A)), 0, None)
+        s_ref = _spec_entropy(lam)
+        ev = np.concatenate([np.sort(lam)[::-1], [0.0]])
+        ln_ref = max(0.0, math.log2(ref_trnorm(ref_pt(P, dims, A))))
+        okm, r = call(ctx, "relabelling:sparse_ket", lambda: (qu.entropy_subsys(pk, nd, nA), qu.mutinf(pk, nd, nA), qu.schmidt_gap(pk, nd, nA),
+                                                              qu.logneg(pk, nd, nA), qu.negativity(pk, nd, nA)), desc)
+        if okm:
+            expect(ctx, "entropy_subsys:relabelling:sparse_ket", close(r[0], s_ref, 1e-7), f"entropy_subsys of the relabelled sparse ket {r[0]} != {s_ref}", desc)
+            expect(ctx, "mutinf:relabelling:sparse_ket", close(r[1], 2 * s_ref, 1e-7), f"mutinf of the relabelled sparse ket {r[1]} != {2 * s_ref}", desc)
+            expect(ctx, "schmidt_gap:relabelling:sparse_ket", close(r[2], float(ev[0] - ev[1]), 1e-7), "schmidt_gap of the relabelled sparse ket differs", desc)
+            expect(ctx, "logneg:relabelling:sparse_ket", close(r[3], ln_ref, 1e-6) and close(r[4], max(0.0, (2**ln_ref - 1) / 2), 1e-6),
+                   f"logneg / negativity of the relabelled sparse ket {r[3]}, {r[4]} != {ln_ref}", desc)
+        k = rng.randint(1, n - 1) if n > 2 else 1
+        SA = rng.sample(range(n), k)
+        rest = [i for i in range(n) if i not in SA]
+        SB = rng.sample(rest, rng.randint(1, len(rest)))
+        nSA, nSB = [perm.index(i) for i in SA], [perm.index(i) for i in SB]
+        d3 = {**desc, "sysa": SA, "sysb": SB}
+        keep = sorted(SA + SB)
+        red = ref_ptr(P, dims, keep)
+        kd = [dims[i] for i in keep]
+        ls_ref = max(0.0, math.log2(ref_trnorm(ref_pt(red, kd, [keep.index(i) for i in SA]))))
+        ms_ref = ref_entropy(ref_ptr(P, dims, SA)) + ref_entropy(ref_ptr(P, dims, SB)) - ref_entropy(red)
+        okm, r = call(ctx, "relabelling:sparse_ket", lambda: (qu.mutinf_subsys(pk, nd, nSA, nSB), qu.logneg_subsys(pk, nd, nSA, nSB)), d3)
+        if okm:
+            expect(ctx, "mutinf_subsys:relabelling:sparse_ket", close(r[0], ms_ref, 1e-6), f"mutinf_subsys of the relabelled sparse ket {r[0]} != {ms_ref}", d3)
+            expect(ctx, "logneg_subsys:relabelling:sparse_ket", close(r[1], ls_ref, 1e-6), f"logneg_subsys of the relabelled sparse ket {r[1]} != {ls_ref}", d3)
+        # sparse operators: distances are invariant under a common relabelling; ptr-based entropies
+        if ok2:
+            okm, r = call(ctx, "relabelling:sparse_operator", lambda: (qu.trace_distance(po, ref_permute(r2, dims, perm)), qu.fidelity(pk, ref_permute(r2, dims, perm)),
+                                                                   qu.entropy(_dense(qu.ptr(sp.csr_matrix(po), nd, nA)))), desc)
+            if okm:
+                expect(ctx, "trace_distance:relabelling:sparse_operator", close(r[0], 0.5 * ref_trnorm(rho - r2)), "trace distance changed under a common sparse relabelling", desc)
+                expect(ctx, "fidelity:relabelling:sparse_ket", close(r[1], math.sqrt(max(0.0, (psi.conj().T @ r2 @ psi).item().real))), "fidelity changed under a common sparse relabelling", desc)
+                expect(ctx, "entropy:relabelling:sparse_operator", close(r[2], ref_entropy(ref_ptr(rho, dims, A)), 1e-7),
+                       "entropy of the reduced relabelled sparse operator differs", desc)
+
+
 def route_searcher(ctx, inf):
-    """direct oracle on a route case whose correspondence failed"""
+    """direct oracle on a route case whose correspondence failed: the same call, with the same
+    approx_thresh whenever the smaller side is below it (exactness is then required), on states
+    whose exact values are known (product, Bell pair, fixed Schmidt spectrum, random + SVD)"""
     import quimb as qu
 
     g = np.random.default_rng(ctx.seed + 2099)
     dims, A, fn = inf["dims"], inf["sysa"], inf["fn"]
     n = len(dims)
-    psi = rand_ket(g, int(np.prod(dims)))
-    P = dop(psi)
+    thresh = inf.get("approx_thresh")
     Bc = [i for i in range(n) if i not in A]
     desc = {k: v for k, v in inf.items() if k != "observed"}
+    if fn in ("entropy_subsys", "tr_sqrt_subsys") and Bc:
+        sa, sb = _side_sizes(dims, A)
+        t = thresh if (thresh is None or min(sa, sb) < thresh) else None
+        threshold_oracle(ctx, dims, A, t, {"searcher_for": desc}, fns=(fn,))
+        return
+    if fn in ("mutinf_subsys", "logneg_subsys"):
+        B = inf.get("sysb", [])
+        if any(not (0 <= i < n) for i in A + B) or set(A) & set(B):
+            return
+        if sorted(A + B) == list(range(n)):
+            sa, sb = _side_sizes(dims, A)
+            for t in sorted({thresh, sb + 1, sa, 2**13} - {None}):
+                if min(sa, sb) < t:
+                    threshold_oracle(ctx, dims, A, t, {"searcher_for": desc}, fns=(fn,))
+            return
+    psi = rand_ket(g, int(np.prod(dims)))
+    P = dop(psi)
     try:
-        if fn == "entropy_subsys":
-            got, want = qu.entropy_subsys(psi, dims, A, approx_thresh=None), (ref_entropy(ref_ptr(P, dims, A)) if Bc else 0.0)
-        elif fn == "tr_sqrt_subsys":
-            lam = np.clip(np.linalg.eigvalsh(ref_ptr(P, dims, A)), 0, None)
-            got, want = qu.calc.tr_sqrt_subsys(psi, dims, A, approx_thresh=None), (float(np.sqrt(lam).sum()) if Bc else 1.0)
-        elif fn == "schmidt_gap":
+        if fn == "schmidt_gap":
             ev = np.concatenate([np.sort(np.linalg.eigvalsh(ref_ptr(P, dims, A)))[::-1], [0.0]])
             got, want = qu.schmidt_gap(psi, dims, A), (float(ev[0] - ev[1]) if Bc else 1.0)
         elif fn == "ptnorm":
             got, want = qu.calc.partial_transpose_norm(psi, dims, A), ref_trnorm(ref_pt(P, dims, A))
-        elif fn in ("mutinf_subsys", "logneg_subsys"):
-            B = inf.get("sysb", [])
-            if any(not (0 <= i < n) for i in A + B) or set(A) & set(B):
-                return
-            if fn == "mutinf_subsys":
-                got = qu.mutinf_subsys(psi, dims, A, B, approx_thresh=None)
-                want = ref_entropy(ref_ptr(P, dims, A)) + ref_entropy(ref_ptr(P, dims, B)) - ref_entropy(ref_ptr(P, dims, A + B))
-            else:
-                keep = sorted(A + B)
-                got = qu.logneg_subsys(psi, dims, A, B, approx_thresh=None)
-                want = max(0.0, math.log2(ref_trnorm(ref_pt(ref_ptr(P, dims, keep), [dims[i] for i in keep], [keep.index(i) for i in A]))))
+        elif fn == "entropy_subsys":
+            got, want = qu.entropy_subsys(psi, dims, A), 0.0
+        elif fn == "tr_sqrt_subsys":
+            got, want = qu.calc.tr_sqrt_subsys(psi, dims, A), 1.0
+        elif fn == "mutinf_subsys":
+            got = qu.mutinf_subsys(psi, dims, A, B, approx_thresh=None)
+            want = ref_entropy(ref_ptr(P, dims, A)) + ref_entropy(ref_ptr(P, dims, B)) - ref_entropy(ref_ptr(P, dims, A + B))
+        elif fn == "logneg_subsys":
+            keep = sorted(A + B)
+            got = qu.logneg_subsys(psi, dims, A, B, approx_thresh=None)
+            want = max(0.0, math.log2(ref_trnorm(ref_pt(ref_ptr(P, dims, keep), [dims[i] for i in keep], [keep.index(i) for i in A]))))
         else:
             return
     except Exception as e:
@@ -1488,7 +1732,7 @@ def timed(ctx, fn):
     ctx.extra.setdefault("stage_wall_s", {})[fn.__name__] = round(time.time() - t, 1)
 
 
-STAGES = [corpus_stage, pt_stream, route_stream, dispatch_stream, correspondence_stage, entropy_stream, negativity_stream, two_qubit_stream, distance_stream, maps_stream, decomp_stream, lazy_stream]
+STAGES = [corpus_stage, pt_stream, route_stream, dispatch_stream, correspondence_stage, entropy_stream, negativity_stream, two_qubit_stream, distance_stream, maps_stream, decomp_stream, lazy_stream, threshold_stream, relabel_sparse_stream]
 
 
 def run(ctx):
